@@ -29,7 +29,7 @@ impl Default for GenCfg {
 pub const NAMES: [&str; 8] = ["q0", "q1", "q2", "q3", "été-ü", "a", "queue/with/slash", "q4"];
 
 pub fn long_name(rng: &mut Rng) -> String {
-    let len = *rng.pick(&[255usize, 256, 1000, 30000]);
+    let len = *rng.pick(&[255usize, 1000, 30000, 30000, 60000]);
     let mut s = String::with_capacity(len);
     while s.len() < len {
         s.push((b'a' + (rng.below(26) as u8)) as char);
@@ -177,7 +177,10 @@ pub fn gen_op(r: &Runner, rng: &mut Rng, cfg: &GenCfg) -> Op {
     let q = existing(r, rng).unwrap();
     if w < 5 {
         if nq < cfg.max_queues {
-            if rng.chance(1, 40) {
+            // queues with long names make the (rare) metadata entries big enough to straddle
+            // block and file boundaries: create, delete, truncate and the GC's position entries
+            let longs = r.spec.queues.keys().filter(|k| k.len() > 200).count();
+            if longs < 2 && rng.chance(1, 6) {
                 Op::Create(long_name(rng))
             } else {
                 Op::Create(missing(r, rng))
